@@ -1,9 +1,11 @@
 #!/bin/bash
 # Re-confirm every kept seeded change against the current /repo HEAD and re-run the check(s) that should catch it.
-# Sequential on purpose: runs against a scratch tree regenerate coq/gen from that tree.
+# Four at a time (each run has its own scratch worktree, output directory and private gen directory); seeds whose
+# meta.json carries "retired" (premise removed by a later fix) are skipped.
 cd /verif
 for d in seeded/*/; do
-  n=$(basename $d); p=${n%_*}
+  n=$(basename $d)
   [ -f "$d/patch.diff" ] || continue
-  tools/seed_test.sh /verif/seeded/$n $p 2>&1 | grep "^RESULT\|patch does not"
-done
+  grep -q '"retired"' "$d/meta.json" && { echo "RETIRED $n"; continue; }
+  echo $n
+done | grep -v "^RETIRED" | xargs -P 4 -I{} sh -c 'n={}; tools/seed_test.sh /verif/seeded/$n ${n%_*} 2>&1 | grep "^RESULT\|patch does not" | cut -c1-60 | sed "s/^/$n: /"' 
